@@ -135,6 +135,12 @@ TEMPLATES = {
     "definitions_inner": ("m: int", 'Element(properties={"x": Property(Array(Integer(minimum=m)))}, additionalProperties=Array(Integer(minimum=m)))', "Dict[str, List[int]]", ["len(v) <= 2", "all(k in ('x', 'y') for k in v)", "all(len(l) <= 2 for l in v.values())"], 'lambda E: {"Arr": E.properties["x"].element, "I": E.properties["x"].element.items}', "quick"),
     "definitions_class": ("m: int", 'Element(properties={"x": Property(_M(m))})', NV, NPRE, 'lambda E: {"Mdef": E.properties["x"].element}', "thorough"),
     "definitions_root": ("m: int", "Integer(minimum=m)", "Union[int, str]", ["not isinstance(v, str) or len(v) <= 1"], 'lambda E: {"D": E}', "thorough"),
+    "enum_lookalikes": ("c1: Union[int, bool], c2: Union[int, bool]", 'Element(enum=[c1, c2, "a", [c1], [c2], {"k": c1}, {"k": c2}])', "Union[int, bool, str, List[Union[int, bool]], Dict[str, Union[int, bool]]]",
+                        ["not isinstance(v, str) or len(v) <= 1", "not isinstance(v, list) or len(v) <= 1", "not isinstance(v, dict) or (len(v) <= 1 and all(k in ('k', 'j') for k in v))"], None, "quick"),
+    "const_lookalikes": ("c1: Union[int, bool]", 'Element(properties={"a": Property(Element(const=[c1, {"k": c1}])), "b": Property(Integer(enum=[c1, 0, 1, 2]))}, default={"a": [c1]})', "Dict[str, Union[int, bool, List[Union[int, bool]]]]",
+                         ["len(v) <= 1", "all(k in ('a', 'b') for k in v)", "all((not isinstance(x, list)) or len(x) <= 1 for x in v.values())"], None, "quick"),
+    "parsed_enum_in_definitions": ("c1: Union[int, bool], c2: Union[int, bool]", 'parse_s({"properties": {"e": {"enum": [c1, c2, [c2, c1]]}}, "additionalProperties": {"const": c2}})', "Dict[str, Union[int, bool, List[Union[int, bool]]]]",
+                                   ["len(v) <= 1", "all(k in ('e', 'b') for k in v)", "all((not isinstance(x, list)) or len(x) <= 2 for x in v.values())"], None, "quick"),
     "pattern_deps": ("m: int", 'Element(patternProperties={"^a": Integer(maximum=m)}, dependencies={"a": ["b"], "b": Element(minProperties=2)}, propertyNames=String(maxLength=2))', DV, DPRE, None, "quick"),
     "bool_additional": ("f: bool", 'Element(properties={"a": Property(Integer())}, additionalProperties=f, additionalItems=f, items=[Integer()])', "Union[Dict[str, int], List[int]]", ["not isinstance(v, dict) or (len(v) <= 2 and all(k in ('a', 'b') for k in v))", "not isinstance(v, list) or len(v) <= 2"], None, "quick"),
     "nothing": ("m: int", 'Element(properties={"a": Property(Nothing())}, additionalProperties=Integer(minimum=m))', DV, DPRE, None, "thorough"),
